@@ -160,3 +160,37 @@ func (ex *Exec) enclosingRangeIdx(fr *Frame, in ssa.Instruction) *ssa.Alloc {
 	}
 	return rangeIndexAlloc(best)
 }
+
+// globalAccessObligations: contracts may require a condition (e.g. "the registry lock is
+// held") at every load or store of a named package-level variable or of one of its fields.
+func (ex *Exec) globalAccessObligations(fr *Frame, st *State, addr ssa.Value, in ssa.Instruction) {
+	c := fr.contract
+	if c == nil {
+		c = ex.prog.contractFor(fr.fn)
+	}
+	if c == nil || len(c.GlobalAccess) == 0 || ex.discover != nil {
+		return
+	}
+	v := addr
+	for {
+		switch x := v.(type) {
+		case *ssa.FieldAddr:
+			v = x.X
+			continue
+		case *ssa.IndexAddr:
+			v = x.X
+			continue
+		}
+		break
+	}
+	g, ok := v.(*ssa.Global)
+	if !ok {
+		return
+	}
+	for _, cl := range c.GlobalAccess[g.Name()] {
+		env := ex.specEnv(fr, st, in.Pos())
+		ex.curClause = "globalaccess " + g.Name() + " requires " + cl.Label
+		cond := ex.evalSpecBool(env, cl.Expr)
+		ex.obligeSpec(st, "globalaccess", ex.siteWhat(in)+":"+cl.Label, cond, cl, in)
+	}
+}
